@@ -82,7 +82,7 @@ func cliCheck(id, explain string) *checkDef {
 			return "family 'actions': 2^8 flag combinations x 4 spokfile variants x 2 working directories x 2 task lists x 2x2 pre-existing files; family 'run': 2^3 flags x 5 task lists x with/without a default task x 5 statuses per command (3-4 commands) x 2 working directories"
 		},
 		Outside: []string{
-			"flag parsing (FollowTheProcess/cli) and the process boundary: App.Options is the entry point; main's 'error -> exit 1' is not executed",
+			"C19, C20: flag parsing (FollowTheProcess/cli) is not executed, App.Options is the entry point. C09: the harness Main executes cmd/spok's run() - cmd.BuildRootCmd, the real flag parser over an argument vector (long and short forms of --quiet --json --force), App.Run - for tasks a, b(a) with 5x5 exit statuses; what is left of main is `if err != nil { msg.Error; os.Exit(1) }`, read, not executed",
 			"--clean (C12's subject); .env loading; the debug log on standard error",
 			"the JSON encoder, tab alignment and colours (the value handed to the encoder, and trimmed cells, are checked under the engine; the native replay checks the real output)",
 			"exit statuses other than the five representatives",
@@ -96,6 +96,8 @@ func cliCheck(id, explain string) *checkDef {
 				cliJob("CliRepeat", map[string]string{"shape": "repeat"}),
 			}
 			if id == "C09" {
+				// from the argument vector to the error that main turns into exit status 1
+				out = append(out, cliJob("Main", map[string]string{"shape": "main"}))
 				// "the failed task is not treated as up to date by later runs": the history harness
 				// (package runh) with failing commands and --force, see checks_run.go
 				for _, j := range histJobs([]histShape{histShapes[0]}, 3, 1, 0, 0) {
@@ -116,7 +118,7 @@ func cliCheck(id, explain string) *checkDef {
 }
 
 func init() {
-	register(cliCheck("C09", "C09: whenever an executed command has a non-zero status App.Run returns an error that names a task with a failing command (also under --quiet, --json, --force), and it returns no error when every command succeeded."))
+	register(cliCheck("C09", "C09: whenever an executed command has a non-zero status App.Run returns an error that names a task with a failing command (also under --quiet, --json, --force), and it returns no error when every command succeeded; the same for cmd/spok's run() started from an argument vector (the error main exits 1 on)."))
 	register(cliCheck("C19", "C19: the difference between the sandbox before and after the invocation is confined to what the action allows: --init creates cwd/spokfile only when absent and only appends to cwd/.gitignore; --fmt changes only the spokfile and only when it parsed and loaded; running tasks changes only proj/.spok (never a pre-existing foreign file in it); listings, --vars, usage and load errors change nothing."))
 	register(cliCheck("C20", "C20: with --json and no failing command nothing goes to the stream and exactly one document is printed whose value lists the tasks in execution order with every command's text, output, error output and status; --quiet prints nothing; --show/--vars/the default listing have one row per task/variable, sorted, with docstring/value; without task names the default task runs iff defined."))
 }
